@@ -24,6 +24,8 @@ def run(ctx):
     skippers.struct_pairing(rep, 'R07.p', prog)
     skippers.shared_skipper_is_order_neutral(rep, 'R07.a', prog)
     skippers.default_skipper_binary_arm(rep, 'R07.a', prog)
+    import thrift_pairs as tp_m
+    tp_m.map_header_order(rep, 'R07.m', prog, cg)
     # what the default skipper adds up for container / field headers (*_len) is what the family's writers put there
     import c04
     for f_ in ('binary', 'binary_le'):
